@@ -431,7 +431,12 @@ func evHandler(c map[string]any) map[string]any {
 			}
 			evSharedExecCtx = shared
 			func() {
-				defer func() { evSharedExecCtx = nil; _ = recover() }()
+				defer func() {
+					evSharedExecCtx = nil
+					if r := recover(); r != nil {
+						diff = fmt.Sprintf("panic in the history run (shared ExecContext): %v", r)
+					}
+				}()
 				names := []string{}
 				if envs, ok := c["envs"].(map[string]any); ok {
 					for n := range envs {
